@@ -15,12 +15,15 @@ use std::f64::consts::PI;
 use std::time::Instant;
 
 fn depth_for(kit: &str, tier: &str) -> usize {
+    // thorough: one sample deeper on the two cheapest spaces; SO(3) and the compound kinds keep the quick
+    // depth and get the wider world / step / radius lattices, every call-boundary position and more seeds
     let deep = matches!(kit, "RealVector" | "SO2" | "SO3");
     match (tier, deep) {
         ("quick", true) => 4,
         ("quick", false) => 3,
-        (_, true) => 5,
-        (_, false) => 4,
+        (_, true) if kit != "SO3" => 5,
+        (_, true) => 4,
+        (_, false) => 3,
     }
 }
 
@@ -70,8 +73,10 @@ fn scenarios_unordered(prop: &str, tier: &str) -> Vec<Scenario> {
                 worlds = b.subset_worlds();
                 if !thorough {
                     // quick tier: the 8 obstacle subsets with an even number of obstacles (every obstacle
-                    // and every pair of obstacles still occurs); thorough: all 16
+                    // and every pair of obstacles still occurs); thorough: those and the four single obstacles
                     worlds.retain(|w| w.obst.len() % 2 == 0);
+                } else {
+                    worlds.retain(|w| w.obst.len() % 2 == 0 || w.obst.len() == 1);
                 }
                 worlds.push(b.world_named("marginal-start", vec![b.marginal.clone()]));
                 worlds.push(b.world_named("goal-overlap", vec![b.goal_overlap.clone()]));
@@ -104,9 +109,9 @@ fn scenarios_unordered(prop: &str, tier: &str) -> Vec<Scenario> {
                     // wall thicker than L (0.283) but thinner than the step, with a gap at the top
                     worlds.push(b.world_named("wall-gap", vec![ObstSpec::Box2(1.8, 2.2, 0.0, 3.0)]));
                 }
-                steps = if thorough { vec![0.6, 1.0, 1.6, 1e6] } else { vec![1.0, 1e6] };
+                steps = if thorough { vec![0.6, 1.0, 1e6] } else { vec![1.0, 1e6] };
                 radius_muls = if thorough { vec![0.5, 1.5, 2.5] } else { vec![2.5] };
-                fracs = if thorough { vec![None, Some(0.01), Some(0.2), Some(1.0)] } else { vec![None, Some(0.2)] };
+                fracs = if thorough { vec![None, Some(0.01), Some(0.2)] } else { vec![None, Some(0.2)] };
             }
             "C05" => {
                 worlds.push(b.world_free());
